@@ -67,6 +67,7 @@ def main(argv):
     ap.add_argument("--replay")
     ap.add_argument("--seed", type=int, default=int(os.environ.get("VERIF_SEED", "0") or 0))
     ap.add_argument("--no-minimise", action="store_true")
+    ap.add_argument("--digests-out")
     args = ap.parse_args(argv)
     faulthandler.enable()
     faulthandler.dump_traceback_later(3 * 3600, exit=True)
@@ -130,6 +131,11 @@ def main(argv):
         "wall_s": round(wall, 2),
         "violations": n_unlisted,
     }
+    if args.digests_out:
+        with open(args.digests_out, "w") as fh:
+            json.dump({str(k): v for k, v in sorted(eng.digests.items())}, fh)
+        print(f"digests written: {len(eng.digests)}")
+        return code
     path = fw.write_evidence(prop, doc)
     print(f"{prop}: runs={eng.evaluations} distinct={len(eng.distinct)} sites={len(eng.found)} unlisted={n_unlisted} "
           f"known={len(known_hit)} wall={wall:.1f}s evidence={path} exit={code}")
